@@ -65,7 +65,7 @@ def call(m, name, args, g, I):
         m.store(args[0], 1, 1, eg)
         return g, None, False
     if name == '__cxa_thread_atexit':
-        m.cur.atexit.append((g, args[0], args[1]))
+        m.cur.atexit.append((g, args[0], args[1], tuple(m.keypath)))
         return g, 0, False
     if name == '__cxa_allocate_exception':
         eg, key = m.vis(g)
